@@ -52,7 +52,7 @@ def rewrite(text, reverse, negatives=True, start=0):
                 mm = GROUP.match(r)
                 k += 1
                 score = (1 + k) * 1.000001e-02 * (-1 if negatives and k % 7 == 3 else 1)
-                sigma = 0.5 + (k % 97) * 0.25
+                sigma = 0.0 if k % 5 == 0 else 0.5 + (k % 97) * 0.25
                 # a table printed in the other direction lists its lines AND the two boundaries of every group the other way round
                 e1, e2 = (mm.group(2), mm.group(1)) if reverse else (mm.group(1), mm.group(2))
                 new.append(f'{e1} - {e2}\t{fmt(score)}\t{fmt(sigma)}{mm.group(5) or ""}')
@@ -65,7 +65,7 @@ def rewrite(text, reverse, negatives=True, start=0):
         if m:
             k += 1
             score = (1 + k) * 1.000001e-02 * (-1 if negatives and k % 7 == 3 else 1)
-            sigma = 0.5 + (k % 97) * 0.25
+            sigma = 0.0 if k % 5 == 0 else 0.5 + (k % 97) * 0.25
             out.append(f'{m.group(1)}{fmt(score)}\t{fmt(sigma)}')
             i += 1
             continue
@@ -73,7 +73,7 @@ def rewrite(text, reverse, negatives=True, start=0):
         if m:
             k += 1
             score = (1 + k) * 1.000001e-02 * (-1 if negatives and k % 7 == 3 else 1)
-            sigma = 0.5 + (k % 97) * 0.25
+            sigma = 0.0 if k % 5 == 0 else 0.5 + (k % 97) * 0.25
             out.append(f'{m.group(1)}{fmt(score)}\t{fmt(sigma)}')
             i += 1
             continue
@@ -238,6 +238,21 @@ def one_listing(args):
             batches = p.batch_numbers()
         except ParserException as e:
             return 1, [{'input': inp, 'observed': f'the re-written listing does not scan: {e}', 'expected': 'same layout, other numbers: parses'}], []
+        # the requested edition is the one returned, whether it is asked for by batch number or by (positive or negative) index
+        if len(batches) > 1:
+            for idx in range(-len(batches), len(batches)):
+                n += 1
+                try:
+                    r = p.parse_from_index(idx)
+                except ParserException as e:
+                    fails.append({'input': dict(inp, edition_index=idx), 'observed': f'parse_from_index({idx}) raised {e}', 'expected': f'edition {batches[idx]}'})
+                    continue
+                got = r.res.get('batch_data', {}).get('batch_number')
+                ebn = r.res.get('batch_data', {}).get('edition_batch_number', got)
+                if got != batches[idx] or ebn != batches[idx]:
+                    fails.append({'input': dict(inp, edition_index=idx), 'observed': f'parse_from_index({idx}) returned the edition of batch {got} (printed edition number {ebn})',
+                                  'expected': f'the edition of batch {batches[idx]} ({batches})'})
+                    break
         for b in batches:
             try:
                 r = p.parse_from_number(b)
@@ -266,7 +281,7 @@ def sweep(tier, seed):
             known_seen.extend(ks)
     return {'name': 'rewritten-listings-native', 'evaluations': n, 'distinct': n, 'failures': fails[:10], 'exhaustive': False, 'known_seen_inputs': known_seen[:3],
             'bound': f'{len(files)} shipped listings that parse; every energy-group line, every mesh-cell line and every "number of batches used" line re-written with pairwise distinct scores of either sign '
-                     '(no zero) and sigma% in 0.5 .. 24.5' + ('' if tier == 'quick' else ', 9 number sequences') + '; tables as printed and with the order of their lines reversed; every edition parsed; every re-written number looked up '
+                     '(no zero score) and sigma% in 0.5 .. 24.5, every fifth one exactly 0' + ('' if tier == 'quick' else ', 9 number sequences') + '; tables as printed and with the order of their lines reversed; every edition parsed; every re-written number looked up '
                      '(value, error = value * sigma% / 100, energy bin = printed boundaries / energy range, mesh cell indices, response_index / score_index of the place of printing); keff, '
                      'perturbation, Green bands and other layouts, and Apollo3 HDF5 files are NOT covered',
             'samples': [{'listing': 'tests/eponine/tripoli4/data/vov.d.res.ceav5', 'tables_printed_in_reverse_order': True}]}
